@@ -183,7 +183,7 @@ func SplitBraces(word *Word) bool {
 		}
 		if last == 0 {
 			addLit(lit)
-		} else {
+		} else if last < len(lit.Value) {
 			left := *lit
 			left.Value = left.Value[last:]
 			addLit(&left)
